@@ -467,6 +467,11 @@ func C06(tier string) {
 			}
 		}
 	})
+	sd := 4
+	if tier == "thorough" {
+		sd = 5
+	}
+	loaderSequences(r, sd, "sequence", true, false)
 	r.Set("size_and_order_files", len(cases))
 	r.Sample(map[string]interface{}{"name": cases[len(cases)/2].Name, "len": len(cases[len(cases)/2].Data)})
 
